@@ -379,4 +379,22 @@ theorem C17_source_skeletons :
     Gen.Skel.JournalReader_ReadFrame = Expected.Skel.JournalReader_ReadFrame :=
   ⟨rfl, rfl⟩
 
+set_option maxRecDepth 20000 in
+/-- A journal rollback is on disk before the journal goes — facts proved by `decide` about the
+    skeleton of `rollbackJournal` regenerated from db.go: segments are rolled back before the
+    database is truncated, the truncation is inside the test of the reader's validity, the database
+    file is synced before the journal file is removed, and the kernel's entry is invalidated after
+    the removal. -/
+theorem C17_rollback_is_synced_before_the_journal_is_removed :
+    let ix (sk : List (String × String)) (x : String × String) (d : Nat) := (sk.findIdx? (· == x)).getD d
+    let t := Gen.Skel.DB_rollbackJournal
+    ix t ("call", "r.Next") 1000 < ix t ("call", "db.rollbackJournalSegment") 0 ∧
+    ix t ("call", "db.rollbackJournalSegment") 1000 < ix t ("if", "r.IsValid()") 0 ∧
+    ix t ("if", "r.IsValid()") 1000 < ix t ("call", "db.truncateDatabase") 0 ∧
+    ix t ("call", "db.truncateDatabase") 1000 < ix t ("call", "dbFile.Sync") 0 ∧
+    ix t ("call", "dbFile.Sync") 1000 < ix t ("call", "db.os.Remove") 0 ∧
+    ix t ("call", "db.os.Remove") 1000 < ix t ("call", "invalidator.InvalidateEntry") 0 ∧
+    (t.filter (· == ("call", "db.os.Remove"))).length = 1 := by
+  decide
+
 end LiteFSVerif.C17
